@@ -241,6 +241,9 @@ class Session:
                 f.write(content)
         kind = w.backend() if w.backend() in ("slurm", "sge", "lsf") else "slurm"
         state = copy.deepcopy(w.sim) if w.sim is not None else simsched.new_state(kind)
+        state["journal"] = []  # the journal describes one session's commands; it is not part of the world state
+        state["calls"] = 0
+        state["exe_count"] = {}
         self.sim = simsched.Sim(state)
 
     def write_files(self, files):
